@@ -210,6 +210,9 @@ def run(ctx):
     # members of different types that share a name and a referenced type (DEFAULT / OPTIONAL / SIZE at the point of use)
     from .. import aliasfam
     aliasfam.run_c12(ctx, ctx.rng, ctx.n(40, 500), impl, CODECS)
+    # permitted-alphabet constraints FROM (...) against an independent reading of the permitted set
+    from .. import fromfam as _fromfam
+    _fromfam.run(ctx, 'C12', ctx.rng, ctx.n(30, 400))
 
 
 def in_addition(t, v):
